@@ -9,7 +9,12 @@ RULE = ('for every lattice size up to the bound and every ordered pair of same-t
         'length) evaluated directly on the real code for every pair; the same paths / plaquettes / site writes (all '
         'ordered same-type pairs incl. every boundary-virtual plaquette, every index in a margin of 2) computed by a '
         'child `python -O` interpreter, compared with the in-process values and judged by a qecsim-free statement of '
-        'the geometry. non-trivial = a != b; distinct = protocol line')
+        'the geometry; path applied to NON-IDENTITY Paulis (random prior sites / plaquettes / logicals / earlier paths, then '
+        'calls incl. repeated, reversed, continuing and overlapping pairs and coincident end points: same object, equal '
+        'tuple, congruent modulo the lattice, tuple vs list): the operator APPLIED by each call (bsf before XOR after) '
+        'goes to the model as an ordinary path case, must equal the fresh-Pauli path and satisfy the property, the '
+        'returned object must be the Pauli itself; chained calls p.path(a,b).path(c,d)… must give prior content times '
+        'all path operators on the result and on the original object. non-trivial = a != b; distinct = protocol line')
 
 FAMILIES = ['planar', 'toric', 'rotatedtoric']
 
@@ -32,6 +37,9 @@ def run(ctx):
                     pair_budget=None if not ctx.quick() else 4000)
         done.append(fam)
     ctx.extra['families'] = done
+    # path applied to non-identity Paulis / in call chains (the decoders' usage)
+    from qv import c15_apply
+    c15_apply.cases(ctx, [f for f in done if f in c15_apply.ADAPTERS])
     if not only:
         # interpreter mode as an input (qecsim documents `python -O`): paths / plaquettes / site writes computed by a child
         # `python -O` (thorough: also -OO) are compared with the in-process ones and the property is evaluated on them
